@@ -6,7 +6,7 @@ META = dict(
     text="A real ControllerPid is created by Act.resolve from the Doer registry inside a resolved House/Framer/Frame for every configuration of wrap in {0, 180}, "
          "integrator limits {[-5,5], [0,0], [1,2]}, output limits {[-20,20], [0,0], [5,10], [-inf,inf]}, gain vectors over {0, 1, -3} plus inf and nan gains, and both "
          "rate modes. From the primed controller every sequence of up to 3 updates (2 for the rate-sensor mode in quick) with input and set point in "
-         "{0, 1, -1, 0.005, 200, -200, inf, -inf, nan} (plus, when wrapping, five pairs exactly half a turn or half a turn plus whole turns apart and two pairs two to three turns apart), lapse in {0, 0.125, 1} "
+         "{0, 1, -1, 0.005, 200, -200, inf, -inf, nan} (plus, when wrapping, five pairs exactly half a turn or half a turn plus whole turns apart and two pairs two to three turns apart), lapse in {-0.125, 0, 0.125, 1} "
          "(inf too in thorough) and sensed rate in {-1, 0.05, inf, nan} is executed, sequences being merged when "
          "they reach the same (prior set point, prior error, error sum). After every evaluated update: ovmin <= output <= ovmax and esmin <= error sum <= esmax "
          "(a NaN fails), the stored error is the shortest representative of input - set point modulo 2*wrap, the prior set point follows the threshold rule, "
@@ -145,8 +145,28 @@ class Rig:
         self.act()          # what Frame.recur does for each of its acts
 
 
-def canon(s, evaluated):
-    return (fr(s[0]), fr(s[1]), fr(s[3]), evaluated, fr(s[8]) if not finite(s[8]) else "t", fr(s[9]))
+def canon(s, evaluated, mprsp):
+    return (fr(s[0]), fr(s[1]), fr(s[3]), evaluated, fr(s[8]) if not finite(s[8]) else "t", fr(s[9]), fr(mprsp))
+
+
+def model_setpoint(mprsp, ev, dstamp):
+    """Reference: the set point the controller has acted on.  Only an update that is evaluated (positive lapse) can act on a
+    change; a zero-lapse update computes nothing, so a change first seen there is still a change for the next evaluated update."""
+    if len(ev) == 4 and dstamp > 0 and abs(ev[2] - mprsp) > DRSP:
+        return ev[2]
+    return mprsp
+
+
+def run_history(rig, hist, mprsp):
+    flag = False
+    for ev in hist:
+        before = rig.store.stamp
+        rig.update(ev)
+        d = rig.store.stamp - before
+        mprsp = model_setpoint(mprsp, ev, d)
+        if d > 0:
+            flag = True
+    return flag, mprsp
 
 
 # (input, set point) pairs exactly half a turn apart, also plus whole turns, for wrap 180: the shortest difference is +-wrap, never 0
@@ -168,7 +188,9 @@ def events(calc, tier, wrap=0.0, retune=None):
     else:
         lapses = (0.125, 1.0)
         rates = (-1.0, 0.05, INF, NAN) if tier == "quick" else (0.0, -1.0, 0.05, INF, NAN)
-    evs = [(0.0, 0.0, 0.0, 0.0)]     # zero lapse: the controller holds; its inputs are not even read
+    # zero lapse (a second action in the same store stamp) and negative lapse (stamp set back; clamped to 0): the controller
+    # computes nothing.  Every set point value is offered, so a set point change can be *first seen* on such an update.
+    evs = [(1.0, 0.0, rsp, 0.0) for rsp in values] + [(1.0, 0.0, rsp, -0.125) for rsp in (0.0, 1.0, 200.0)]
     for lapse in lapses:
         for rate in rates:
             for rsp in values:
@@ -228,11 +250,12 @@ def _work(job):
         rep.update(kw)
         p.violation(group, show(cfg, hist), what, rep)
 
-    seen = {canon(rig.initial, False): ()}
-    layer = [(rig.initial, False, ())]
+    m0 = rig.initial[0]
+    seen = {canon(rig.initial, False, m0): ()}
+    layer = [(rig.initial, False, (), m0)]
     for d in range(1, depth + 1):
         nxt = []
-        for pre, was_eval, hist in layer:
+        for pre, was_eval, hist, mprsp in layer:
             for ev in evs:
                 rig.restore(pre)
                 h2 = hist + (ev,)
@@ -249,16 +272,17 @@ def _work(job):
                     if post[9] == pre[9]:
                         continue            # same limits: no new state
                     p.outcome("limits retuned")
-                    k = canon(post, was_eval)
+                    k = canon(post, was_eval, mprsp)
                     if k not in seen:
                         seen[k] = h2
                         p.nontrivial((fr(cfg[:4]), k))
-                        nxt.append((post, was_eval, h2))
+                        nxt.append((post, was_eval, h2, mprsp))
                     continue
                 ovmin, ovmax, esmin, esmax = pre[9]      # the limits configured when this update is evaluated
                 inp, rate, rsp, lapse = ev
                 dstamp = post[8] - pre[8]
-                lap = dstamp if dstamp > 0 else 0.0          # NaN (inf - inf) and 0 -> not evaluated
+                lap = dstamp if dstamp > 0 else 0.0          # NaN (inf - inf), 0 and negative -> not evaluated
+                mprsp2 = model_setpoint(mprsp, ev, dstamp)
                 if not lap > 0:
                     evaluated = was_eval
                     p.outcome("held (zero lapse)")
@@ -294,7 +318,10 @@ def _work(job):
                     elif True in verdicts and wrap and abs(inp - cands[verdicts.index(True)]) >= abs(wrap):
                         p.outcome("error wrapped" if abs(e2) < abs(wrap) else "error at exactly half a turn (+-wrap)")
                     # ---- a change above the threshold resets the integrator: the result must not depend on the old error sum
-                    if changed and es0 != 0.0 and not stop:
+                    #      `acted` = the reference's view: the set point differs from the last one an evaluated update acted on (a change first
+                    #      seen on a zero-lapse update is still pending); `changed` = the controller's own prior-set-point share
+                    acted = abs(rsp - mprsp) > DRSP
+                    if (changed or acted) and es0 != 0.0 and not stop:
                         forced = list(pre)
                         forced[3] = 0.0
                         rig.restore(tuple(forced))
@@ -304,7 +331,7 @@ def _work(job):
                         if not eq(es3, es2):
                             bad("reset|integrator not reset by a set point change above the threshold", h2,
                                 "set point %r -> %r with error sum %r before: error sum after is %r, but %r when the integrator is zeroed first"
-                                % (prsp, rsp, es0, es2, es3), got=dict(errorSum=es2, errorSum_from_zero=es3))
+                                % (mprsp, rsp, es0, es2, es3), got=dict(errorSum=es2, errorSum_from_zero=es3, last_set_point_acted_on=mprsp, prsp_share=prsp))
                             stop = True
                         p.outcome("integrator reset observed")
                         rig.restore(post)
@@ -312,11 +339,11 @@ def _work(job):
                     p.outcome("evaluated: output %s" % cls)
                     if stop:
                         continue            # do not expand a violating state
-                k = canon(post, evaluated)
+                k = canon(post, evaluated, mprsp2)
                 if k not in seen:
                     seen[k] = h2
                     p.nontrivial((fr(cfg[:4]), k))
-                    nxt.append((post, evaluated, h2))
+                    nxt.append((post, evaluated, h2, mprsp2))
         layer = nxt
     p.states = len(seen)
     # ---- validate snapshot/restore against plain replay: every state's witness history re-run from the primed state,
@@ -325,26 +352,16 @@ def _work(job):
     fresh = items[-2:]
     for k, hist in items:
         rig.restore(rig.initial)
-        ev_flag = False
-        for ev in hist:
-            before = rig.store.stamp
-            rig.update(ev)
-            if rig.store.stamp - before > 0:
-                ev_flag = True
+        ev_flag, mm = run_history(rig, hist, m0)
         p.traces += 1
-        if canon(rig.snap(), ev_flag) != k:
-            raise core.BrokenCheck("replay of %s reached %r, search recorded %r" % (show(cfg, hist), canon(rig.snap(), ev_flag), k))
+        if canon(rig.snap(), ev_flag, mm) != k:
+            raise core.BrokenCheck("replay of %s reached %r, search recorded %r" % (show(cfg, hist), canon(rig.snap(), ev_flag, mm), k))
     for k, hist in fresh:
         r2 = Rig(cfg)
-        ev_flag = False
-        for ev in hist:
-            before = r2.store.stamp
-            r2.update(ev)
-            if r2.store.stamp - before > 0:
-                ev_flag = True
+        ev_flag, mm = run_history(r2, hist, m0)
         p.traces += 1
-        if canon(r2.snap(), ev_flag) != k:
-            raise core.BrokenCheck("fresh replay of %s reached %r, search recorded %r" % (show(cfg, hist), canon(r2.snap(), ev_flag), k))
+        if canon(r2.snap(), ev_flag, mm) != k:
+            raise core.BrokenCheck("fresh replay of %s reached %r, search recorded %r" % (show(cfg, hist), canon(r2.snap(), ev_flag, mm), k))
         if hist:
             p.sample(dict(config=show_cfg(cfg), updates=[list(map(fr, e)) for e in hist],
                           after=dict(zip(("prsp", "error", "errorRate", "errorSum", "output"), map(fr, r2.snap()[:5])))), limit=1)
@@ -427,6 +444,8 @@ def run():
         "against the prior set point (what the code does to suppress noise) or the new one",
         "shortest wrapped difference is judged only when input - set point is finite; |error| <= wrap and error - difference is a whole number of 2*wrap turns (1e-9), "
         "computed with exact Fractions and not with ioflo's wrap2; at exactly half a turn both +wrap and -wrap pass, 0 does not",
+        "zero-lapse and negative-lapse updates (second action in one store stamp, stamp set back) compute nothing; a set point change first seen on such an update "
+        "must still reset the integrator when it is acted on: the reference remembers the last set point an evaluated update acted on, independently of the prsp share",
         "integrator reset is judged differentially: the update is repeated from the same state with errorSum forced to 0.0 and must give the same error sum",
         "sequences are merged when prior set point, prior error and error sum (and 'store stamp is infinite') coincide: output, error rate and elapsed are not fed back; "
         "every recorded state is re-reached by plain replay of its witness history, the longest two on a freshly built controller",
@@ -437,7 +456,7 @@ def run():
     return ck.finish(
         rule="configurations = wrap {0,180} x error-sum limits %r x output limits x gain vectors (gff,gpe,gde,gie) x rate mode; calcRate True: %d gain vectors x 4 output limits, "
              "sequences of <= 3 updates, lapse %s; calcRate False: 7 gain vectors x 2 output limits x error-sum limits (quick: [-5,5] and [1,2] only) x ger %s, sequences of <= %d updates, lapse {0.125, 1} x sensed rate %s. "
-             "update = input x set point over %r (plus the half-turn pairs (270,90) (630,90) (0,-180) (-90,90) (-450,90) and the far pairs (80,720) (1000,0) when wrap = 180) x lapse (x rate), plus a zero-lapse update. retune family (calcRate True, %s): the same with input/set point over %s plus the operations 'set output limits to [-5,5] / [30,40] / the constructed pair' "
+             "update = input x set point over %r (plus the half-turn pairs (270,90) (630,90) (0,-180) (-90,90) (-450,90) and the far pairs (80,720) (1000,0) when wrap = 180) x lapse (x rate), plus zero-lapse updates with every set point value and negative-lapse updates (set point 0, 1, 200). retune family (calcRate True, %s): the same with input/set point over %s plus the operations 'set output limits to [-5,5] / [30,40] / the constructed pair' "
              "and 'set error-sum limits to [-1,1] / [3,4] / the constructed pair' between updates, <= 3 operations. evaluations = real controller updates judged; states = distinct fed-back states summed over configurations."
              % (ESLIMS, len(gain_vectors(core.TIER != "quick")), "{0.125, 1}" if core.TIER == "quick" else "{0.125, 1, inf}",
                 "{-3}" if core.TIER == "quick" else "{1,-3}", 2 if core.TIER == "quick" else 3,
